@@ -48,13 +48,20 @@ impl Clone for Cb {
     }
 }
 
+/// zero-sized, never accessed: it only shifts the positions of Y's other columns
+#[derive(Clone)]
+pub struct Cz;
+
+// The shared component Ca sits at a different position in each archetype (last of 2 in X, middle of 3 in Y,
+// after a zero-sized column), so an access that is keyed on a column POSITION instead of the component shows.
 ecs_world! {
     ecs_name!(BW);
-    ecs_archetype!(X, Ca, Cb);
-    ecs_archetype!(Y, Ca, Cc);
+    ecs_archetype!(X, Cb, Ca);
+    ecs_archetype!(Y, Cz, Ca, Cc);
 }
 
-/// Parameter forms of the borrow macros: list of (column index within the archetype, mutable).
+/// Parameter forms of the borrow macros: list of (logical column, mutable); logical column 0 = Ca, 1 = the
+/// archetype's other component (Cb in X, Cc in Y), whatever their declared positions.
 const FORMS: [&[(u8, bool)]; 12] = [
     &[(0, false)], &[(0, true)], &[(1, false)], &[(1, true)],
     &[(0, false), (1, false)], &[(0, false), (1, true)], &[(0, true), (1, false)], &[(0, true), (1, true)],
@@ -397,8 +404,8 @@ struct Vio {
 
 fn build_world(popx: usize, popy: usize) -> (BW, Vec<Entity<X>>, Vec<Entity<Y>>) {
     let mut w = BW::new();
-    let ex = (0..popx).map(|i| w.create::<X>((Ca(10 + i as u32), Cb(20 + i as u32)))).collect();
-    let ey = (0..popy).map(|i| w.create::<Y>((Ca(30 + i as u32), Cc(40 + i as u32)))).collect();
+    let ex = (0..popx).map(|i| w.create::<X>((Cb(20 + i as u32), Ca(10 + i as u32)))).collect();
+    let ey = (0..popy).map(|i| w.create::<Y>((Cz, Ca(30 + i as u32), Cc(40 + i as u32)))).collect();
     (w, ex, ey)
 }
 
